@@ -1,6 +1,52 @@
 """C17 -- a written setting reads back as written and touches only its own registers."""
+import asyncio
+from ..runner import Stage
 from . import sensorprop as SP
-from .. import invmon as IM
+from .. import invmon as IM, siminv as SI, sensorcorr as SC, coqrun as C
+
+
+def stage_settings_model(ctx):
+    """Model/Settings.v against the real ET / DT classes on the simulated inverter: the write request (first register, count) and the
+    word stored in the setting's register after write_setting, for every setting of the covered kinds x values x prior register contents"""
+    st = Stage('settings-model-correspondence')
+    goodwe = SI.reload_goodwe()
+    objs = [('et_ws', ) + IM.make_et(goodwe, IM.ET_SERIALS['205 three-phase'], 10000, (), 2, seed=ctx.rng.randrange(1 << 30)),
+            ('dt_ws', ) + IM.make_dt(goodwe, IM.DT_SERIALS['three-phase'], seed=ctx.rng.randrange(1 << 30))]
+    cases, descr = [], []
+    for shape, inv, sim in objs:
+        asyncio.run(inv.read_device_info())
+        for s in inv.settings():
+            c = type(s).__name__
+            if c not in ('Integer', 'IntegerS', 'ByteH', 'ByteL', 'Decimal'): continue
+            vals = IM.setting_values(s, ctx.rng, False)[:: (1 if ctx.deep else 3)]
+            for v in vals:
+                prior = ctx.rng.randrange(65536)
+                sim.set(s.offset, prior)
+                n0 = len(sim.log)
+                try:
+                    asyncio.run(inv.write_setting(s.id_, v)); ok = True
+                except Exception:      # noqa
+                    ok = False
+                wr = [e for e in sim.log[n0:] if e in sim.writes()]
+                if ok and len(wr) == 1:
+                    got = [1, wr[0]['reg'], 1 if wr[0]['fn'] == 6 else wr[0]['count'], sim.word(s.offset)]
+                elif not ok and not wr: got = [0]
+                else: got = [9, len(wr)]
+                vt = f'(IInt ({int(v)}))' if c != 'Decimal' else f'(IFloat {SC.C.fl(float(v)) if hasattr(SC.C, "fl") else ""})'
+                if c == 'Decimal':
+                    k = round(float(v) * s.scale)
+                    vt = f'(IFloat (PrimFloat.div (float_of_Z ({k})) (float_of_Z {s.scale})))'
+                    if k / s.scale != float(v): continue
+                term = (f'match write_setting {shape} (fun a => if a =? {s.offset} then {prior} else 0) (mkS ""%string {s.offset} {s.size_} {SC.coq_kind(goodwe, s)}) {vt} with '
+                        f'| Ok (r, (o, n)) => [1; o; n; r {s.offset}] | Exc _ => [0] end')
+                cases.append((term, got)); descr.append(dict(family=shape[:2].upper(), setting=s.id_, value=repr(v), prior=prior))
+                st.case((shape, s.id_, repr(v)), sample=descr[-1] if len(st.samples) < 3 else None)
+    bad, err = C.eval_cases('c17set', 'PyFloat Sensors Settings SettingsGen', cases, shard=300)
+    if err: st.violation('settings-eval', f'model evaluation failed: {err[:300]}', dict(error=err), no_input=True)
+    for i in bad[:6]:
+        st.violation('settings-mismatch', f'Model/Settings.v and the real write_setting disagree (request / stored word) for {descr[i]}: implementation {cases[i][1]}',
+                     dict(config=descr[i], implementation=cases[i][1], correspondence='Settings.write_setting vs ET/DT.write_setting'), no_input=True)
+    return st
 
 SPEC = dict(
     level='proof',
@@ -12,11 +58,14 @@ SPEC = dict(
              'performs write_setting / read_setting for every setting of ET, DT (sensors and firmware variants, Modbus RTU and TCP) and the '
              'register-addressed eco-mode settings of ES (AA55 and Modbus) against the simulated inverter: exactly one write, addressed to the '
              "setting's registers, every other register unchanged (incl. the other half for one-byte settings), value read back.",
-        note='The write path (one write request with the right address) is established by the monitor against the simulated inverter, not by a theorem.',
-        technique='Coq codec proofs (symbolic + exhaustive binary64 evaluation) + encoder correspondence + write/read-back monitor',
+        note='End-to-end theorems (C17_write_read_*) hold on the register-file model Model/Settings.v for the 68 of 105 Modbus settings of kinds Integer, '
+             'IntegerS, ByteH, ByteL, Decimal (sizes / scales checked against the generated tables, shape of _write_setting / _read_sensor emitted from '
+             'the source by tools/ws2v.py, model compared with the real classes); multi-register groups, timestamps and values scaled by 10, and the ES '
+             'paths, are covered by the monitor only.',
+        technique='Coq proofs on codecs and on a register-file model of write_setting / read_setting + correspondences + write/read-back monitor',
         design_ref='DESIGN.md section 5 (C17)'),
-    stages=[SP.stage_encoders, SP.inv_stage('write-readback-monitor', IM.mon_write)],
-    theorems=['C17_integer', 'C17_integer_signed', 'C17_byte_high', 'C17_byte_low', 'C17_decimal'],
+    stages=[SP.stage_encoders, stage_settings_model, SP.inv_stage('write-readback-monitor', IM.mon_write)],
+    theorems=['C17_write_read_integer', 'C17_write_read_integer_signed', 'C17_write_read_byte_high', 'C17_write_read_byte_low', 'C17_write_read_decimal', 'C17_generated_shapes_ok', 'C17_generated_settings_fit', 'C17_integer', 'C17_integer_signed', 'C17_byte_high', 'C17_byte_low', 'C17_decimal'],
     rule='every setting with an encoder x boundary + seeded values (all 256 values of one-byte settings and all multiples of the resolution in thorough) '
          'x prior register contents x {ET RTU, ET TCP, DT, ES AA55, ES Modbus}',
     trusted_base=SP.TB_SENS,
